@@ -552,13 +552,21 @@ func c03RunNackgen(t *testing.T, ops []string, o *Out) {
 			buf     = make([]byte, 1500)
 			failN   int // the next failN writer calls fail
 		)
+		// every packet handed to the RTCP writer is the writer's (it may queue it): kept by pointer and re-rendered
+		// after every later op, before Close and after Close (retain_test.go)
+		defer o.EndKept()
 		defer func() {
+			o.CheckKeptAll()
 			if icpt != nil {
 				_ = icpt.Close()
+				synctest.Wait()
 			}
 		}()
+		nWritten := 0
 		writer := interceptor.RTCPWriterFunc(func(pkts []rtcp.Packet, _ interceptor.Attributes) (int, error) {
 			for _, p := range pkts {
+				nWritten++
+				o.KeepRTCP(fmt.Sprintf("written#%d", nWritten), p)
 				n, ok := p.(*rtcp.TransportLayerNack)
 				if !ok {
 					got = append(got, c03Nack{at: -1})
@@ -605,6 +613,7 @@ func c03RunNackgen(t *testing.T, ops []string, o *Out) {
 			got = got[:0]
 		}
 		for _, op := range ops {
+			o.CheckKept()
 			name, m, ok := c03Parse(op)
 			if !ok {
 				o.P("bad-op")
